@@ -3,6 +3,7 @@ import AslProofs.Xdl
 import AslProofs.XdlChunks
 import AslProofs.JsonSpec
 import AslProofs.XdlRfcMain
+import AslProofs.XdlPrefix
 /-!
 # C06 — JSON/XDL decoding is total, memory-safe, chunk-independent and RFC 8259 conformant
 
@@ -168,6 +169,24 @@ example : Rfc8259.SerDoc
   exact Rfc8259.SerV.obj _ _
     (Rfc8259.SerMembers.one [97] _ [] [97] [] [] _ [] hws (.plain 97 [] [] (by unfold Rfc8259.unescaped; decide) .nil) hws hws
       (Rfc8259.SerV.arr _ _ e) hws)
+
+/-! ## prefix rejection -/
+
+/-- a text that stops before the final closing byte of a top-level array, object or string is rejected -/
+def prefix_reject_full : Prop :=
+  ∀ (v : JV) (a x p s : Bytes), Rfc8259.Ws a → Rfc8259.SerV v x →
+    ((∃ l, v = .arr l) ∨ (∃ ms, v = .obj ms) ∨ (∃ t, v = .str t)) →
+    a ++ x = p ++ s → s ≠ [] → decode p = some none
+
+/-- proved part: a text that stops anywhere before the closing bracket/brace of a top-level array or
+    object (nesting ≤ 1000), after any leading white space, is rejected — whatever state the cut leaves the
+    machine in (inside a number, a string, an escape, a nested container …) -/
+theorem prefix_reject_partial (v : JV) (a x p s : Bytes) (ha : Rfc8259.Ws a) (hx : Rfc8259.SerV v x)
+    (hv : (∃ l, v = .arr l) ∨ (∃ ms, v = .obj ms)) (hd : Rfc8259.depth v ≤ 1000)
+    (heq : a ++ x = p ++ s) (hs : s ≠ []) : decode p = some none := by
+  rcases hv with ⟨l, rfl⟩ | ⟨ms, rfl⟩
+  · exact AslProofs.XdlPrefix.prefix_array l a x p s ha hx hd heq hs
+  · exact AslProofs.XdlPrefix.prefix_object ms a x p s ha hx hd heq hs
 
 /-! ## non-vacuity: the model decodes, rejects, and depends on its input -/
 
